@@ -265,6 +265,14 @@ Definition build_vocab (merges : list (str * str)) (eow : option str) : vocab :=
                  merges (v2, 0)).
 
 Inductive new_err := InvalidMergeEntry | MissingVocabEntry.
+(* what the harness observed from Bpe::new *)
+Inductive new_out := NewOk | NewErr (e : new_err) | NewOther | NewPanic.
+Definition new_err_eqb (a b : new_err) : bool :=
+  match a, b with
+  | InvalidMergeEntry, InvalidMergeEntry => true
+  | MissingVocabEntry, MissingVocabEntry => true
+  | _, _ => false
+  end.
 
 (* build_merge_map: rank = (i as u32); insert overwrites an earlier entry of the same pair *)
 Fixpoint build_merge_map (v : vocab) (merges : list (str * str)) (i : N) (mm : mmap)
@@ -469,19 +477,40 @@ Definition decode (b : bpe) (ids : list tok) : dec_res :=
 (* ------------------------------------------------------------------------------------ *)
 Definition piece := (N * list N)%type.
 
-Fixpoint encode_str (b : bpe) (pieces : list piece) : res (list tok * list N) :=
+(* the normalizer's answer, when there is one: normalized bytes and, per normalized byte,
+   the offset in the source text (`offset_map`) *)
+Definition norm := option (list N * list N).
+Definition normalized_text (text : list N) (nm : norm) : list N :=
+  match nm with Some (t, _) => t | None => text end.
+
+(* map_offset: `mappings.get(offset).copied().expect("invalid normalized offset")` *)
+Definition map_offset (nm : norm) (off : N) : res N :=
+  match nm with
+  | None => Ok off
+  | Some (_, m) => match nth_error m (N.to_nat off) with Some x => Ok x | None => Panic end
+  end.
+
+(* encode_str: every token of a chunk is reported by Bpe::encode_with_offsets at offset 0 of
+   the chunk, so it gets the source offset of the chunk's start *)
+Fixpoint encode_str (b : bpe) (nm : norm) (pieces : list piece) : res (list tok * list N) :=
   match pieces with
   | [] => Ok ([], [])
-  | (off, bytes) :: r =>
+  | (base, bytes) :: r =>
       let here := match bytes with
                   | [] => Ok []
                   | _ => encode_piece b bytes true
                   end in
       match here with
       | Ok ts =>
-          match encode_str b r with
-          | Ok (ts', offs') => Ok (ts ++ ts', repeat off (length ts) ++ offs')
-          | e => e
+          let off := match ts with [] => Ok 0 | _ => map_offset nm (base + 0) end in
+          match off with
+          | Ok off =>
+              match encode_str b nm r with
+              | Ok (ts', offs') => Ok (ts ++ ts', repeat off (length ts) ++ offs')
+              | e => e
+              end
+          | Panic => Panic
+          | OutOfFuel => OutOfFuel
           end
       | Panic => Panic
       | OutOfFuel => OutOfFuel
@@ -491,8 +520,9 @@ Fixpoint encode_str (b : bpe) (pieces : list piece) : res (list tok * list N) :=
 (* encode_chunks with max_chunk_len = None, no special tokens: zero tokens -> no chunk ->
    `encode` builds an empty Encoded; otherwise one chunk holding all tokens whose offsets
    get one extra final entry, the input length *)
-Definition tk_encode (b : bpe) (text : list N) (pieces : list piece) : res (list tok * list N) :=
-  match encode_str b pieces with
+Definition tk_encode (b : bpe) (text : list N) (nm : norm) (pieces : list piece)
+  : res (list tok * list N) :=
+  match encode_str b nm pieces with
   | Ok (ts, offs) =>
       match ts with
       | [] => Ok ([], [])
@@ -548,3 +578,26 @@ Fixpoint pieces_from (ps : list piece) (at_ : N) : bool :=
   end.
 Definition pieces_cover (text : list N) (ps : list piece) : bool :=
   pieces_from ps 0 && list_eqb N.eqb (concat (map snd ps)) text.
+
+(* what the offset theorem needs from a normalizer's offset map: one entry per normalized
+   byte, non-decreasing, starting at 0, sending char boundaries of the normalized text to
+   char boundaries of the source text *)
+Fixpoint map_boundaries (text normalized : list N) (m : list N) (i : N) (len : nat) : bool :=
+  match len with
+  | O => true
+  | S k =>
+      (if is_char_boundary normalized i
+       then match nth_error m (N.to_nat i) with
+            | Some x => (x <=? N.of_nat (length text)) && is_char_boundary text x
+            | None => false
+            end
+       else true) && map_boundaries text normalized m (i + 1) k
+  end.
+Definition norm_ok (text : list N) (nm : norm) : bool :=
+  match nm with
+  | None => true
+  | Some (t, m) =>
+      Nat.eqb (length m) (length t) && sorted_le m
+      && match m with [] => true | x :: _ => x =? 0 end
+      && map_boundaries text t m 0 (length t)
+  end.
